@@ -234,6 +234,62 @@ fn run(ctx: &mut Ctx) {
             }
         }
     });
+    // ---- runs of entries at and beyond the 16-bit limits (any internal counter / repeat bound would show)
+    ctx.cases("long-runs", ctx.tier.pick(6, 24), |ctx, i, rng| {
+        let n = [65_534usize, 65_535, 65_536, 65_537, 70_000, 131_073][(i % 6) as usize];
+        let mut bytes = Vec::with_capacity(4 * n + 600);
+        if i % 2 == 0 {
+            bytes.extend(scaler_block(rng));
+        }
+        for k in 0..n {
+            if k % 1000 == 999 {
+                bytes.extend(marker_word(k as u32 / 1000));
+            } else {
+                bytes.extend(ts_word((k % 59) as u8, k % 2 == 0, rng.next()));
+            }
+        }
+        bytes.extend(scaler_block(rng));
+        for _ in 0..5 {
+            bytes.extend(ts_word(1, false, rng.next()));
+        }
+        let Some((got, consumed)) = lib_parse(ctx, &bytes) else { return };
+        let (exp, ec) = ref_parse(&bytes);
+        if got != exp || consumed != ec {
+            ctx.violation("entries or consumed length differ from the reference parser", format!("run of {} consecutive entries: consumed {} vs {}, entries {} vs {}", n, consumed, ec, got.len(), exp.len()), json!({"consecutive_entries": n}));
+            return;
+        }
+        // and in pieces
+        let cuts: Vec<usize> = (1..bytes.len()).step_by(10_007).collect();
+        if let Some((acc, rem)) = feed_in_pieces(ctx, &bytes, &cuts) {
+            if acc != exp || rem != bytes[ec..] {
+                ctx.violation("piecewise parsing differs from one-shot parsing", format!("run of {} consecutive entries", n), json!({"consecutive_entries": n}));
+                return;
+            }
+        }
+        ctx.count("long runs (>= 65534 consecutive entries) parsed identically");
+    });
+    // ---- near-miss scaler tags (each tag byte at every value) followed by > 240 bytes of valid words: the parser
+    // must stop there, whatever follows
+    ctx.cases("near-tags", 4, |ctx, pos, rng| {
+        for v in 0..=255u8 {
+            let mut tag = TAG;
+            tag[pos as usize] = v;
+            let mut bytes = Vec::new();
+            bytes.extend(ts_word(3, false, 77));
+            bytes.extend(marker_word(0));
+            bytes.extend(tag);
+            for _ in 0..80 {
+                bytes.extend(ts_word(rng.below(59) as u8, rng.bool(), rng.next()));
+            }
+            let Some((got, consumed)) = lib_parse(ctx, &bytes) else { return };
+            let (exp, ec) = ref_parse(&bytes);
+            if got != exp || consumed != ec {
+                ctx.violation("entries or consumed length differ from the reference parser", format!("near-miss scaler tag {:02x?}: consumed {} vs {}, entries {} vs {}", tag, consumed, ec, got.len(), exp.len()), json!({"bytes": hex(&bytes)}));
+                return;
+            }
+            ctx.count("near-miss scaler tags followed by data handled like the reference");
+        }
+    });
     ctx.require("streams parsed identically to the reference", 100);
     ctx.require("cut histories replayed", 1000);
 }
